@@ -31,7 +31,7 @@ LEVEL_TEXT = ('exploration: ~10^4 (quick) / ~10^5 (thorough) generated pslq / fi
               'object checked exactly against the exact inputs')
 LEVEL_NOTE = 'inputs not generated are not covered; None results outside the planted envelope are not asserted'
 TECHNIQUE = 'runtime result monitor: exact rational re-verification of every returned relation; restricted evaluator for identify formulas'
-SHARD_TIMEOUT = {'quick': 400, 'thorough': 3000}
+SHARD_TIMEOUT = {'quick': 1800, 'thorough': 7200}
 
 NSHARDS = 16
 COUNTS = {'quick': {'pslq': 420, 'findpoly': 90, 'identify': 40}, 'thorough': {'pslq': 4000, 'findpoly': 800, 'identify': 320}}
